@@ -337,6 +337,9 @@ func init() {
 	add("C20", ruleR20_6)
 	add("C01", ruleR20_6)
 	add("C09", ruleR20_6)
+	// round 10
+	add("C01", ruleR01_6)
+	add("C14", ruleR01_6)
 	add("C01", ruleR03_6)
 	add("C02", ruleR05_1)
 	add("C03", ruleR19_1)
